@@ -22,6 +22,16 @@ def gen_ext(rng, wavs):
     xs = sorted(set([lo, hi] + [rng.logdyadic(lo, hi, 12) for _ in range(n - 2)]))
     chi = [rng.logdyadic(1.0, 1e4, 12) * (x ** -1.2) for x in xs]
     chi = [float(Fraction(c).limit_denominator(1 << 20)) for c in chi]
+    if rng.random() < 0.12:
+        # a law that is very weak everywhere but around V (far-infrared / sub-mm bands): extinction coefficients of order 1e-6 to 1e-9,
+        # still distinct from band to band - a well-posed regression with a tiny determinant
+        weak = 2.0 ** -rng.choice([20, 24, 30])
+        pts = {x: c * weak for x, c in zip(xs, chi) if not 0.5 <= x <= 0.6}
+        pts.update({0.5: 300.0, 0.55: 256.0, 0.6: 200.0})
+        if lo > 0.5:
+            pts[0.25] = 600.0 * weak
+        xs = sorted(pts)
+        chi = [pts[x] for x in xs]
     # the unit the law's wavelength column is tabulated in (the values below stay in micron; make_extinction converts)
     return dict(wav=xs, chi=chi, unit=rng.choice(['micron', 'micron', 'micron', 'cm', 'nm', 'Angstrom']))
 
